@@ -363,7 +363,7 @@ def skesk(rep, prog):
             continue
         ev = [e for e in s.events if e[0] in ('call', 'store', 'del')]
         ins = [i for i, e in enumerate(ev) if (_call(e, 'packet.insert') and e[2] == ['0', '255']) or
-               (_store(e, sl('packet', ('', 0))) and e[2] == 'C(ff)')]          # packet.insert(0, 255) / packet[:0] = b'\xff'
+               (_store(e, sl('packet', ('', 0))) and norm_term(e[2]) == 'C(ff)')]          # packet.insert(0, 255) / packet[:0] = b'\xff'
         s2k = [i for i, e in enumerate(ev) if _call(e, 'self.s2k.parse') and
                ((e[2] == ['packet'] and e[3] == {'iv': 'False'}) or (e[2] == ['packet', 'False'] and not e[3]))]
         take = sl('packet', ('', lin_add('self.header.length', 'len(self.s2k)', -1)))
